@@ -32,7 +32,7 @@ const maxBuildTries = 60
 
 func parseEndp(w string) (endp, bool) {
 	p := strings.Split(w, ":")
-	if len(p) != 3 || (p[0] != "S" && p[0] != "P") {
+	if len(p) != 3 || (p[0] != "S" && p[0] != "P" && p[0] != "F") {
 		return endp{}, false
 	}
 	return endp{kind: p[0][0], name: proto.Dec(p[1]), extra: proto.Dec(p[2])}, true
@@ -68,14 +68,23 @@ func parseOracle(s string) (map[string]outVal, bool) {
 	return m, true
 }
 
-// hasCycle: some processor->processor cycle exists in the connection list (conditions ignored).
-// Such configurations are never executed by this harness (F05a territory: an unreachable cycle entered
-// from a short-circuit node overflows the stack of the whole process).
-func hasCycle(cs []connDef) bool {
+// refCycle: some flow (transitively) references itself.  Such configurations are not loaded by this harness
+// (C05's F05b: unbounded recursion of incorporateFlow in the loader itself).
+func refCycle(c *caseCfg) bool {
 	adj := map[string][]string{}
-	for _, c := range cs {
-		if c.from.kind == 'P' && c.to.kind == 'P' {
-			adj[c.from.name] = append(adj[c.from.name], c.to.name)
+	for _, f := range c.flows {
+		if f.kind == "user" && (len(f.req) == 0 || len(f.res) == 0) {
+			continue
+		}
+		for _, cs := range [][]connDef{f.req, f.res} {
+			for _, cn := range cs {
+				if cn.from.kind == 'F' {
+					adj[f.name] = append(adj[f.name], cn.from.name)
+				}
+				if cn.to.kind == 'F' {
+					adj[f.name] = append(adj[f.name], cn.to.name)
+				}
+			}
 		}
 	}
 	state := map[string]int{}
@@ -99,6 +108,19 @@ func hasCycle(cs []connDef) bool {
 	for n := range adj {
 		if visit(n) {
 			return true
+		}
+	}
+	return false
+}
+
+func hasRefs(c *caseCfg) bool {
+	for _, f := range c.flows {
+		for _, cs := range [][]connDef{f.req, f.res} {
+			for _, cn := range cs {
+				if cn.from.kind == 'F' || cn.to.kind == 'F' {
+					return true
+				}
+			}
 		}
 	}
 	return false
@@ -223,6 +245,11 @@ func exec(c proto.Case, o *proto.Out) []string {
 				outs[i] = "bad-op" // the build order must name every user flow
 				break
 			}
+			if hasRefs(cfg) && refCycle(cfg) {
+				o.Count("load-unsafe-refcycle")
+				outs[i] = "unsafe-refcycle"
+				break
+			}
 			tries := 0
 			for {
 				tries++
@@ -260,15 +287,7 @@ func exec(c proto.Case, o *proto.Out) []string {
 				break
 			}
 			loaded = true
-			unsafe = false
-			for _, f := range cfg.flows {
-				if f.kind == "user" && (len(f.req) == 0 || len(f.res) == 0) {
-					continue // skipped by the loader (YAML-level validation)
-				}
-				if hasCycle(f.req) || hasCycle(f.res) {
-					unsafe = true
-				}
-			}
+			unsafe = eng.anyCycle(cfg)
 			o.Count("load-accept")
 			outs[i] = "accept " + eng.dump(cfg)
 		case "txn":
